@@ -32,6 +32,29 @@ VALUE_CHANGERS = {"to_lowercase", "to_uppercase", "to_ascii_lowercase", "to_asci
                   "trim_matches", "trim_start_matches", "trim_end_matches", "replace", "replacen", "strip_prefix", "strip_suffix", "split", "rsplit", "split_once", "rsplit_once"}
 
 
+def tree_guards(f):
+    """under which tests of request values is the regex tree of this layer consulted? (set of condition sets)"""
+    out = set()
+    s = Sym(f, copies=True, max_paths=200000)
+    regions = [s.paths()] + [lp.iteration_paths(s) for lp in for_loops(f)]
+    for paths in regions:
+        for p in paths:
+            for i, e in enumerate(p.events):
+                if e[0] == "call" and e[6] is not None and e[6].local and (e[6].adt or "").startswith("regex_radix_tree::tree::") and e[6].name in ("find", "trace"):
+                    before = [(x[1], x[2]) for x in p.events[:i] if x[0] == "cond"]
+                    def norm(a, v):
+                        # `x.is_some()` / `x.is_none()` and a match on x say the same thing
+                        if a[0] == "call" and a[1].rsplit("::", 1)[1] in ("is_some", "is_none") and len(a[2]) == 1:
+                            some = (v == 1) == a[1].endswith("is_some")
+                            return ("disc(%s)" % show(a[2][0])[:150], "Some" if some else "None")
+                        if a[0] == "disc":
+                            return ("disc(%s)" % show(a[1])[:150], v)
+                        return (show(a)[:160], v)
+                    g = frozenset(norm(a, v) for a, v in before if mentions(a, lambda x: x[0] == "call" and x[1].startswith("http::request::Request::")))
+                    out.add(g)
+    return out
+
+
 def request_value_changes(f):
     """case / whitespace / substring transformations applied to a value a Request accessor returned"""
     out = set()
@@ -80,6 +103,9 @@ def r17_2(ctx, layers):
             r.ob("predicates:%s:trigger-predicates" % L.short, a[1] == b[1], t.site, "match uses %s, trace uses %s" % (sorted(a[1]), sorted(b[1])))
             ca, cb = request_value_changes(m), request_value_changes(t)
             r.ob("predicates:%s:request-values-as-matched" % L.short, ca == cb, t.site, "what is compared is the request value as matching sees it: match applies %s, trace applies %s" % (sorted(ca), sorted(cb)))
+            if a[2] or b[2]:
+                ga, gb = tree_guards(m), tree_guards(t)
+                r.ob("predicates:%s:tree-consulted-under-the-same-tests" % L.short, ga == gb, t.site, "match consults the tree under %s, trace under %s" % (sorted(sorted(x) for x in ga), sorted(sorted(x) for x in gb)))
             r.ob("predicates:%s:tree" % L.short, a[2] == b[2], t.site, "regex tree consulted by match: %s, by trace: %s" % (sorted(a[2]), sorted(b[2])))
     ctx.run_rule("R17.2", "trace uses the same request accessors and trigger predicates as matching", body, floor=28)
 
